@@ -445,6 +445,17 @@ func (s *State) Forget(a Atom) {
 	}
 	if len(users) > 0 {
 		sort.Slice(users, func(i, j int) bool { return users[i] < users[j] })
+		// the static range of a is about to be lost with a: make it explicit so
+		// that it transfers to the atom that takes over
+		if r := s.eng.atoms[a].rng; r.HasLo || r.HasHi {
+			if r.HasLo {
+				s.ineq = append(s.ineq, Var(a).AddConst(-r.Lo))
+			}
+			if r.HasHi && r.Hi < lenMax {
+				s.ineq = append(s.ineq, Var(a).Neg().AddConst(r.Hi))
+			}
+			used = true
+		}
 		// pick a user with unit coefficient on a: it becomes base, a gets defined through it, then dropped
 		for _, u := range users {
 			d := s.def[u]
